@@ -70,7 +70,7 @@ func c18MaxLen() int {
 
 func c18ElemBound() int {
 	if verifTier() >= 1 {
-		return 8
+		return 5
 	}
 	return 3
 }
